@@ -160,18 +160,6 @@ def execute(case):
     return out
 
 
-def _kf_c15_1(case, outcome):
-    post = case["ast"].get("post")
-    if not post or outcome.get("oracle") not in ("stage-executions", "final-contents") or outcome.get("env_index") is None:
-        return False
-    trips = PL.trips_of(case["envs"][outcome["env_index"]])
-    msg = outcome.get("message") or ""
-    return trips >= 2 and trips % 2 == 0 and (f"[({post['tag']}, " in msg or "('P'," in msg)
-
-
-TRIGGERS = {"duplicated_buffer_read_behind_the_loop": _kf_c15_1}
-
-
 def shrink(case):
     if len(case["envs"]) > 1:
         for i in range(len(case["envs"])):
